@@ -98,6 +98,9 @@ def rules_select_event(run, P='C05', rid='.3'):
         run.check(not bad and 'DUE' in vs and 'NONEMPTY' in vs, r, fi.short, 'due test guarding the returned event',
                   'the head is returned iff the queue is non-empty and queued_time <= self.time (non-strict); got a '
                   'different condition over %s' % vs, rt)
+    brk = [n for n in ast.walk(lp) if isinstance(n, ast.Break)]
+    run.check(not brk, r, fi.short, 'a queue without due head never stops the examination of the next queue',
+              'the loop over the queues can be left early: a not-yet-due internal event would hold back a due external one', brk[0] if brk else lp)
     pops = [c for c in q.calls(lp) if isinstance(c.func, ast.Attribute) and c.func.attr in ('pop', 'popleft', 'remove')
             or isinstance(c.func, ast.Attribute) and c.func.attr in ('clear',)]
     dels = [n for n in ast.walk(lp) if isinstance(n, ast.Delete)]
@@ -371,8 +374,8 @@ def rules_between(run, P='C05'):
                   'queue written from the decision phase in %s' % [x[0].short for x in ws], ci.node)
 
 
-def rules_send(run, P='C05'):
-    r = run.rule(P + '.6', 'send() builds InternalEvent objects collected in the list returned by _execute_code; '
+def rules_send(run, P='C05', rid='.6'):
+    r = run.rule(P + rid, 'send() builds InternalEvent objects collected in the list returned by _execute_code; '
                            '_raise_event queues InternalEvents for the sender')
     fi = run.fn('PythonEvaluator._execute_code')
     F = fi.node
